@@ -5,7 +5,7 @@
 //!   drive sort <seed> <cases> <out.ndjson>
 use serde_json::{json, Value};
 use std::io::Write;
-use tdverif::cells::{CellT, Elem, Tok, Zst, K32, W1K, W4K};
+use tdverif::cells::{CellT, Elem, Elem40, Tok, Zst, K32, W1K, W24, W4K};
 use tdverif::hist::{event, index_args, Machine};
 use tdverif::util::{guarded, silence_panics, LenMode};
 use toodee::{SortOps, TooDee, TooDeeOps, TooDeeOpsMut};
@@ -187,7 +187,9 @@ fn hist<T: CellT + std::hash::Hash>(seed: u64, histories: usize, steps: usize, m
                 match op {
                     "insert_row" | "push_row" | "insert_col" | "push_col" => {
                         let site = if op.ends_with("row") { "next" } else { "next_back" };
-                        match rng.below(7) {
+                        match rng.below(9) {
+                            7 => Some((json!({"kind": "lie", "site": "none", "k": 0, "lie": "flip_down"}), LenMode::FlipDown)),
+                            8 => Some((json!({"kind": "lie", "site": "none", "k": 0, "lie": "flip_up"}), LenMode::FlipUp)),
                             6 => Some((json!({"kind": "panic_at", "site": "iter_drop", "k": 0, "lie": "none"}), LenMode::True)),
                             0 => Some((json!({"kind": "panic_at", "site": "len", "k": rng.below(2), "lie": "none"}), LenMode::True)),
                             1 => Some((json!({"kind": "lie", "site": "none", "k": 0, "lie": "minus1"}), LenMode::Minus1)),
@@ -281,7 +283,7 @@ fn sort(seed: u64, cases: usize, out: &mut impl Write) {
         let (pc, pr) = (nc + 2 * mc, nr + 2 * mr);
         let line = rng.below(if by_row { nr } else { nc });
         let stable = huge || rng.chance(60);
-        let form = ["cmp", "key", "ord", "skey"][rng.below(4)];
+        let form = ["cmp", "key", "ord", "skey", "bkey"][rng.below(5)];
         if !by_row && !stable && form == "ord" {
             continue; // no such variant
         }
@@ -323,6 +325,10 @@ fn sort(seed: u64, cases: usize, out: &mut impl Write) {
                         (true, false, "skey") => r.sort_unstable_by_row_key(line, |x| format!("{:010}", x.key())),
                         (false, true, "skey") => r.sort_by_col_key(line, |x| format!("{:010}", x.key())),
                         (false, false, "skey") => r.sort_unstable_by_col_key(line, |x| format!("{:010}", x.key())),
+                        (true, true, "bkey") => r.sort_by_row_key(line, |x| x.key() as u8),
+                        (true, false, "bkey") => r.sort_unstable_by_row_key(line, |x| x.key() as u8),
+                        (false, true, "bkey") => r.sort_by_col_key(line, |x| x.key() as u8),
+                        (false, false, "bkey") => r.sort_unstable_by_col_key(line, |x| x.key() as u8),
                         (true, true, "key") => r.sort_by_row_key(line, |x| x.key()),
                         (true, false, "key") => r.sort_unstable_by_row_key(line, |x| x.key()),
                         (true, true, _) => r.sort_row_ord::<()>(line),
@@ -376,6 +382,8 @@ fn main() {
                 "tok" => hist::<Tok>(seed, histories, steps, maxdim, &mut out, faults),
                 "w1k" => hist::<W1K>(seed, histories, steps, maxdim, &mut out, faults),
                 "w4k" => hist::<W4K>(seed, histories, steps, maxdim, &mut out, faults),
+                "w24" => hist::<W24>(seed, histories, steps, maxdim, &mut out, faults),
+                "elem40" => hist::<Elem40>(seed, histories, steps, maxdim, &mut out, faults),
                 "u32" => hist::<K32>(seed, histories, steps, maxdim, &mut out, faults),
                 _ => hist::<Elem>(seed, histories, steps, maxdim, &mut out, faults),
             }
